@@ -803,7 +803,6 @@ class Gen:
             s, p = self.particle(where)
             if p not in [q for _, q in out]:
                 out.append((s, p))
-        self.hit("plist:%d" % min(len(out), 3))
         return out
 
     # ---- numeric lists with shortcuts
@@ -963,8 +962,13 @@ class Gen:
                 f = ["par", pl, e]
             elif can_touch and r.random() < 0.4:
                 sep = None
-                self.hit("term:(fact)leaf")
-                f = self.leaf(ctx["surfs"])
+                if r.random() < 0.15 and ctx["compl"]:
+                    self.hit("term:(fact)#INT")
+                    f = ["ccell", ["r", "n", str(r.choice(ctx["compl"])), None, None]]
+                    self.emit(fact_toks(f))
+                else:
+                    self.hit("term:(fact)leaf")
+                    f = self.leaf(ctx["surfs"])
             else:
                 sep = self.pad()
                 self.hit("term:fact fact")
@@ -1028,6 +1032,7 @@ class Gen:
             parts = [self.particle("cell")[1]]
         if parts:
             self.emit(parts_toks([("PARTICLE", p) for p in parts]))
+            self.hit("plist:%d" % min(len(parts), 3))
         sep = self.sep()
         endp = (lambda: self.opad(0.3, final=True)) if last else self.pad
 
@@ -1181,6 +1186,8 @@ class Gen:
     # ---- data cards
     def dcls(self, name, num=None, parts=None, mod=None):
         cls = [mod, name, num, [[s, p] for s, p in (parts or [])]]
+        if parts:
+            self.hit("plist:%d" % min(len(parts), 3))
         self.emit(dcls_toks(cls))
         return cls
 
@@ -1444,15 +1451,15 @@ class Gen:
             ps.append(["spar", key, sep, v])
         return ["sdef", lead, cls, pad, ps]
 
-    def dist_card(self, name, num):
+    def dist_card(self, name, num, option=None):
         r = self.rng
         self.tags = set()
         lead = self.lead()
         cls = self.dcls(name, num)
         pad = self.pad()
         n = r.choice([1, 2, 3, 5, 9])
-        if r.random() < 0.6:
-            o = r.choice(DIST_OPTIONS)
+        if option or r.random() < 0.6:
+            o = option or r.choice(DIST_OPTIONS)
             self.emit([("PARTICLE", o)])
             p = self.pad()
             self.hit("%s:option-%s" % (name.upper(), o.upper()))
@@ -1747,7 +1754,15 @@ def plain_int(r):
     return r[1] == "n" and r[2] != "" and r[3] is None and r[4] is None
 
 
+def zaid_like(n):
+    """an unsigned number that starts like a ZAID with a library: dddd.dde (4-6 digits, two decimals, exponent e)"""
+    return (is_node(n, {"r"}) and len(n) == 5 and n[1] == "n" and isinstance(n[2], str) and 4 <= len(n[2]) <= 6
+            and n[3] is not None and len(n[3]) == 2 and n[4] is not None and n[4][0] in ("e", "E"))
+
+
 def _ptag(special, p, where, out):
+    if p == "c":
+        out.add("particle-comment:c")
     if p in ("u", "x", "y", "z"):
         out.add("particle-keyword:" + p)
     if special or p in SYMBOL_PARTICLES:
@@ -1775,6 +1790,10 @@ def features(sh):
             out.add("mul-real")
         if is_node(n, {"r"}) and len(n) == 5 and n[4] is not None and n[4][0] == "f" and n[3] == "":
             out.add("real:fortran-after-dot")
+        if zaid_like(n):
+            out.add("real:zaid-like")
+        if is_node(n, {"tand"}) and n[2] is None and n[3][0] in ("ccell", "cpar"):
+            out.add("paren-then-complement")
         if is_node(n, {"svp"}):
             _ptag(n[1][0], n[1][1], "data", out)
         if is_node(n, {"dparts"}):
@@ -1803,6 +1822,8 @@ def features(sh):
                 run = run + 1 if it[0] != "num" else 0
                 if run >= 2:
                     out.add("chained-shortcuts")
+                if run >= 3:
+                    out.add("chained-shortcuts-3")
                 if it[0] in ("rep", "mul", "int", "log"):
                     out.add("shortcut:" + it[0])
                 if it[0] == "j":
@@ -1825,20 +1846,22 @@ def without(sh, tag):
             return None
         ps = [c for c in sh[6] if c[2] != key]
         return sh[:6] + [ps]
-    if kind in ("particle-keyword", "particle-symbol"):
+    if kind == "paren-then-complement":
+        return map_tree(sh, lambda n: ["tand", n[1], ["sp", 0], n[3]] if (is_node(n, {"tand"}) and n[2] is None and n[3][0] in ("ccell", "cpar")) else n)
+    if kind in ("particle-keyword", "particle-symbol", "particle-comment"):
         def f(n):
             if is_node(n, {"cp"}) and len(n) == 7:
-                return n[:4] + [["n" if (p in "uxyz" or p in SYMBOL_PARTICLES) else p for p in n[4]]] + n[5:]
+                return n[:4] + [["n" if (p in "uxyzc" or p in SYMBOL_PARTICLES) else p for p in n[4]]] + n[5:]
             if is_node(n, {"svp"}):
                 return ["svp", [False, "n", n[1][2]]]
             if is_node(n, {"dparts"}):
-                return ["dparts", [[False, "n" if k == 0 else "p", p[2]] if (p[1] in "uxyz" or p[0]) else p for k, p in enumerate(n[1])]]
+                return ["dparts", [[False, "n" if k == 0 else "p", p[2]] if (p[1] in "uxyzc" or p[0]) else p for k, p in enumerate(n[1])]]
             return n
         sh2 = map_tree(sh, f)
         if sh2[0] in ("data", "tally", "sdef"):
             i = 3 if sh2[0] == "tally" else 2
             cls = sh2[i]
-            sh2[i] = [cls[0], cls[1], cls[2], [[False, "n"] if (p in "uxyz" or s) else [s, p] for s, p in cls[3]][:1] if cls[3] else []]
+            sh2[i] = [cls[0], cls[1], cls[2], [[False, "n"] if (p in "uxyzc" or s) else [s, p] for s, p in cls[3]][:1] if cls[3] else []]
         return sh2
     if kind == "tally-mod":
         sh2 = list(sh)
@@ -1855,6 +1878,8 @@ def without(sh, tag):
         return map_tree(sh, f)
     if kind == "mul-real":
         return map_tree(sh, lambda n: ["mul", ["r", "n", "2", None, None]] if is_node(n, {"mul"}) else n)
+    if tag == "real:zaid-like":
+        return map_tree(sh, lambda n: n[:3] + [n[3] + "0", n[4]] if zaid_like(n) else n)
     if kind == "real":
         return map_tree(sh, lambda n: n[:3] + ["0", n[4]] if (is_node(n, {"r"}) and len(n) == 5 and n[4] is not None and n[4][0] == "f" and n[3] == "") else n)
     if kind == "mat-plain-after-lib":
@@ -1866,5 +1891,78 @@ def without(sh, tag):
     return None
 
 
+def paths(node, pred, prefix=()):
+    """paths (tuples of indices) of the sub-nodes satisfying pred, parents first"""
+    if isinstance(node, list):
+        if pred(node):
+            yield prefix
+        for i, x in enumerate(node):
+            yield from paths(x, pred, prefix + (i,))
+
+
+def get_at(node, path):
+    for i in path:
+        node = node[i]
+    return node
+
+
+def replace_at(node, path, new):
+    if not path:
+        return new
+    out = list(node)
+    out[path[0]] = replace_at(node[path[0]], path[1:], new)
+    return out
+
+
 def simplify_pads(sh):
     return map_tree(sh, lambda n: ["sp", 0] if is_node(n, PAD_KINDS) and n[0] != "ld" else (None if is_node(n, {"ld"}) else n))
+
+
+# every alternative of DESIGN.md 5.2 / 5.3 that the generator counts (Gen.hit); the evidence lists the ones a run
+# did not exercise
+ALTERNATIVES = [
+    'DS:no-option', 'DS:option-A', 'DS:option-C', 'DS:option-D', 'DS:option-H', 'DS:option-L', 'DS:option-S',
+    'DS:option-V', 'EQ:=', 'EQ:blank', 'EQ:blank=blank', 'F:modifier-*', 'F:modifier-+', 'F:modifier-none', 'FC',
+    'FILL-card', 'FILL:lattice-ranges', 'FILL:n', 'FILL:n (INT)', 'FILL:n (trbody)', 'FM:(REAL+)', 'FM:REAL', 'FS:T',
+    'FS:plain', 'IMP-card', 'KCODE', 'KSRC', 'L:ampersand-ge5', 'L:ampersand-lt5', 'L:blanks', 'L:comment-line',
+    'L:comment-line-bare-c', 'L:comment-line-indented', 'L:dollar+newline', 'L:dollar-at-end', 'L:lead-blanks',
+    'L:lead-comment-lines', 'L:newline+5', 'L:pad-after-(', 'L:pad-after-(-in-fill', 'L:pad-after-(-in-tally',
+    'L:pad-after-(-in-trcl', 'L:tab', 'L:trailing-blanks', 'LAT-card', 'M:fractions-negative', 'M:fractions-positive',
+    'MN:ARB/30', 'MN:BOX/12', 'MN:BOX/9', 'MN:C/X/3', 'MN:C/Y/3', 'MN:C/Z/3', 'MN:CX/1', 'MN:CY/1', 'MN:CZ/1',
+    'MN:ELL/7', 'MN:GQ/10', 'MN:HEX/15', 'MN:HEX/9', 'MN:K/X/4', 'MN:K/X/5', 'MN:K/Y/4', 'MN:K/Y/5', 'MN:K/Z/4',
+    'MN:K/Z/5', 'MN:KX/2', 'MN:KX/3', 'MN:KY/2', 'MN:KY/3', 'MN:KZ/2', 'MN:KZ/3', 'MN:P/4', 'MN:P/9', 'MN:PX/1',
+    'MN:PY/1', 'MN:PZ/1', 'MN:RCC/7', 'MN:REC/10', 'MN:REC/12', 'MN:RHP/15', 'MN:RHP/9', 'MN:RPP/6', 'MN:S/4',
+    'MN:SO/1', 'MN:SPH/4', 'MN:SQ/10', 'MN:SX/2', 'MN:SY/2', 'MN:SZ/2', 'MN:TRC/8', 'MN:TX/6', 'MN:TY/6', 'MN:TZ/6',
+    'MN:WED/12', 'MN:X/2', 'MN:X/4', 'MN:X/6', 'MN:Y/2', 'MN:Y/4', 'MN:Y/6', 'MN:Z/2', 'MN:Z/4', 'MN:Z/6', 'MODE:1',
+    'MODE:2', 'MODE:3', 'MT:1-laws', 'MT:2-laws', 'NL:I', 'NL:ILOG', 'NL:J', 'NL:R', 'NL:adjacent-shortcuts', 'NL:nI',
+    'NL:nILOG', 'NL:nJ', 'NL:nR', 'NL:number', 'NL:shortcut-first', 'NL:shortcut-last', 'NL:xM', 'NL:xM-real',
+    'REAL:dot', 'REAL:exp-3-digits', 'REAL:exp-E', 'REAL:exp-E+', 'REAL:exp-E-', 'REAL:exp-e', 'REAL:exp-e+',
+    'REAL:exp-e-', 'REAL:exp-f+', 'REAL:exp-f-', 'REAL:fixed', 'REAL:fortran', 'REAL:int', 'REAL:lead',
+    'REAL:leading-zero', 'REAL:sci', 'REAL:sign+', 'REAL:sign-', 'REAL:signnone', 'SB:no-option', 'SB:option-A',
+    'SB:option-C', 'SB:option-D', 'SB:option-H', 'SB:option-L', 'SB:option-S', 'SB:option-V', 'SC',
+    'SDEF:no-parameters', 'SI:no-option', 'SI:option-A', 'SI:option-C', 'SI:option-D', 'SI:option-H', 'SI:option-L',
+    'SI:option-S', 'SI:option-V', 'SP:no-option', 'SP:option-A', 'SP:option-C', 'SP:option-D', 'SP:option-H',
+    'SP:option-L', 'SP:option-S', 'SP:option-V', 'TR:*TR', 'TR:TR', 'TRCL:(trbody)', 'TRCL:INT', 'U-card', 'U:-INT',
+    'U:INT', 'VOL:NO', 'VOL:plain', 'card:C', 'card:CM', 'card:DE', 'card:DF', 'card:E', 'card:EM', 'card:SD',
+    'card:T', 'card:TM', 'case:lower', 'case:mixed-per-token', 'case:upper', 'cparam:*FILL', 'cparam:*TRCL',
+    'cparam:BFLCL', 'cparam:COSY', 'cparam:DXC', 'cparam:ELPT', 'cparam:EXT', 'cparam:FCL', 'cparam:FILL',
+    'cparam:IMP', 'cparam:LAT', 'cparam:NONU', 'cparam:PD', 'cparam:PWT', 'cparam:TMP', 'cparam:TRCL', 'cparam:U',
+    'cparam:UNC', 'cparam:VOL', 'cparam:WWN', 'fact:#(geom)', 'fact:#INT', 'fact:(geom)', 'generic:no-numbers',
+    'generic:no-numbers+keys', 'generic:no-numbers+keys+word', 'generic:no-numbers+word', 'generic:numbers',
+    'geom:union', 'gkey:=REAL', 'gkey:=WORD', 'gname:ACT', 'gname:AREA', 'gname:AWTAB', 'gname:BURN', 'gname:CTME',
+    'gname:CUT', 'gname:DBCN', 'gname:ESPLT', 'gname:FMESH', 'gname:LOST', 'gname:MESH', 'gname:NONU', 'gname:NPS',
+    'gname:PHYS', 'gname:PRDMP', 'gname:PRINT', 'gname:RAND', 'gname:THTME', 'gname:TMP', 'gname:TOTNU', 'gname:VOID',
+    'gname:WWE', 'gname:WWN', 'gname:WWP', 'leaf:+', 'leaf:-', 'leaf:plain', 'mat:+dens', 'mat:-dens', 'mat:void',
+    'mkey:ALIB', 'mkey:COND', 'mkey:DLIB', 'mkey:ELIB', 'mkey:ESTEP', 'mkey:GAS', 'mkey:HLIB', 'mkey:HSTEP',
+    'mkey:NLIB', 'mkey:PLIB', 'mkey:PNLIB', 'mkey:REFC', 'mkey:REFI', 'mkey:REFS', 'mkey:SLIB', 'mkey:TLIB',
+    'mval:DDL', 'mval:REAL', 'pl:!', 'pl:#', 'pl:%', 'pl:*', 'pl:+', 'pl:-', 'pl:/', 'pl:<', 'pl:>', 'pl:?', 'pl:@',
+    'pl:^', 'pl:_', 'pl:a', 'pl:b', 'pl:c', 'pl:d', 'pl:e', 'pl:f', 'pl:g', 'pl:h', 'pl:k', 'pl:l', 'pl:n', 'pl:o',
+    'pl:p', 'pl:q', 'pl:s', 'pl:t', 'pl:u', 'pl:v', 'pl:w', 'pl:x', 'pl:y', 'pl:z', 'pl:|', 'pl:~', 'plist:1',
+    'plist:2', 'plist:3', 'skey:ARA', 'skey:AXS', 'skey:BAP', 'skey:BEM', 'skey:CCC', 'skey:CEL', 'skey:DAT',
+    'skey:DIR', 'skey:EFF', 'skey:ERG', 'skey:EXT', 'skey:LOC', 'skey:NRM', 'skey:PAR', 'skey:POS', 'skey:RAD',
+    'skey:SUR', 'skey:TME', 'skey:TR', 'skey:VEC', 'skey:WGT', 'skey:X', 'skey:Y', 'skey:Z', 'surface:modifier-*',
+    'surface:modifier-+', 'surface:modifier-none', 'surface:pointer-none', 'surface:pointer-periodic',
+    'surface:pointer-transform', 'sval:D INT', 'sval:REAL+', 'sval:pl', 'tbins:(SINT+)', 'tbins:SINT', 'tbins:T',
+    'term:(fact)leaf', 'term:(fact)#INT', 'term:fact (fact)', 'term:fact fact', 'term:fact(fact)', 'trbody:12', 'trbody:13', 'trbody:3',
+    'trbody:6', 'trbody:8', 'trbody:9', 'zaid:.DDDLL', 'zaid:.DDL', 'zaid:no-library',
+]
